@@ -148,6 +148,19 @@ Proof.
 Qed.
 Print Assumptions C20_failed_reload_keeps_set_refuted.
 
+(* same clause, second way to lose a plugin (finding F24): after a reload that failed with
+   ImportError and put the plugin back, a further reload -- even of a now-importable plugin --
+   raises KeyError (sys.modules lookup outside the try) and the plugin is gone *)
+Theorem C20_failed_reload_after_importerror_refuted :
+  exists world s n s', get_callback lower_ascii (s_cbs s) n <> None /\
+  owner_reload lower_ascii world s n 0 false false id_oracle = (s', Raise KeyError) /\
+  get_callback lower_ascii (s_cbs s') n = None.
+Proof.
+  exists w_reload, (steps lower_ascii w_reload st0 ops_reload2), nAlpha. eexists.
+  split; [vm_compute; discriminate|]. split; vm_compute; reflexivity.
+Qed.
+Print Assumptions C20_failed_reload_after_importerror_refuted.
+
 (* the commands answered are those of the registered callbacks (dispatch itself: C14) *)
 Theorem C20_commands_union_partial :
   forall cbs cmd, answers cbs cmd = true <->
